@@ -275,16 +275,18 @@ def plan(ctx):
     T = ctx.thorough
     for consumer in ("sync", "buffer", "direct") + (("native",) if T else ()):
         for mb in (1, 2, 10):
-            # two partitions, 3-4 messages
-            jobs.append(((consumer, mb, 2, None, False, "earliest", (), (), (0, 0, 1) + ((0,) if T else ()), 2.0), 0 if consumer != "sync" else 1))
+            # two partitions, three messages
+            jobs.append(((consumer, mb, 2, None, False, "earliest", (), (), (0, 0, 1), 2.0), 0 if consumer != "sync" else 1))
         jobs.append(((consumer, 2, 1, 1, False, "earliest", ((0, 1),), (0, 0), (0, 0), 2.0), 1))
         jobs.append(((consumer, 2, 1, None, False, "latest", (), (0,), (0, 0), 2.0), 0))
         jobs.append(((consumer, 2, 1, None, True, "earliest", (), (0,), (0, "A", 1), 2.0), 0))
         jobs.append(((consumer, 1, 2, 2, True, "latest", ((1, 0),), (1,), (0, 1), 2.0), 0))
     if T:
-        for consumer in ("buffer", "direct"):
-            jobs.append(((consumer, 2, 2, None, False, "earliest", (), (), (0, 0, 1, 1), 3.0), 1))
-            jobs.append(((consumer, 1, 1, None, False, "earliest", (), (), (0, 0, 0), 3.0), 1))
+        # four messages / a longer horizon, deviation bound 0 (a crash is deviation-free everywhere)
+        for consumer in ("sync", "buffer", "direct"):
+            jobs.append(((consumer, 2, 2, None, False, "earliest", (), (), (0, 0, 1, 1), 2.0), 0))
+            jobs.append(((consumer, 1, 1, None, False, "earliest", (), (), (0, 0, 0), 3.0), 0))
+            jobs.append(((consumer, 2, 2, None, True, "earliest", ((0, 1),), (0, 0), (0, "A", 2, 1), 2.0), 0))
     return jobs
 
 
